@@ -201,37 +201,50 @@ def r4_parallel(ctx):
     c06.r2_evaluators(ProxyCtx(ctx, "C06.R2", "C08.R4"))
     # par_experiment: fresh state per run, seeded with the run number of the iteration item
     pe = F.fn("mahf::experiments::par_experiment")
-    news = [(g, b, t) for g in F.with_closures(pe) for b, t in g.body.calls() if t["f"].get("key") == "mahf::state::random::Random::new"]
+    reach = F.helper_reach(pe)        # par_experiment, its closures, the private helpers the run is split into
+    news = [(g, b, t) for g in reach for b, t in g.body.calls() if t["f"].get("key") == "mahf::state::random::Random::new"]
     good = len(news) == 1
     why = "%d Random::new sites" % len(news)
     if good:
+        from kinds import closure_capture
         g, b, t = news[0]
         e = g.body.expr_of_op(t["args"][0])
-        leaf, cs, fields = origin(e)
-        # the seed is a capture of the inner closure; follow it to the outer closure's parameter (the (run, problem) item)
+        # the seed is a capture of the inner closure; follow it - through captures and through the parameters of private helpers,
+        # to their single call site - to a parameter of a closure of par_experiment (the (run, problem) item of the iteration)
         why = expr_str(e)
         cur, ex = g, e
         good = False
-        for _ in range(3):
+        for _ in range(6):
             leaf, cs, fields = origin(ex)
-            if leaf == ("arg", 2):
-                good = cur.kind == "Closure"
+            if not (isinstance(leaf, tuple) and leaf and leaf[0] == "arg"):
                 break
-            if leaf == ("arg", 1) and fields and cur.kind == "Closure":
-                from kinds import closure_capture
-                cap = closure_capture(F, cur, fields[0])
-                if not cap:
+            if cur.kind == "Closure":
+                if leaf[1] >= 2:
+                    top = cur
+                    while top.kind == "Closure" and top.parent and F.fn_opt(top.parent) is not None:
+                        top = F.fn(top.parent)
+                    good = top.key == pe.key
                     break
-                cur, ex = cap
-                why += " <- " + expr_str(ex)
-            else:
+                if leaf == ("arg", 1) and fields:
+                    cap = closure_capture(F, cur, fields[0])
+                    if not cap:
+                        break
+                    cur, ex = cap
+                    why += " <- " + expr_str(ex)
+                    continue
                 break
-        opt = [(g2, t2) for g2 in F.with_closures(pe) for b2, t2 in g2.body.calls() if t2["f"].get("key") == "mahf::configuration::Configuration::optimize_with"]
+            # a helper function's parameter: its (single) call site inside the run
+            cs_ = [(h, t2) for h in reach for _b2, t2 in h.body.calls() if (t2["f"].get("resolved", {}).get("key") or t2["f"].get("key")) == cur.key]
+            if len(cs_) != 1 or leaf[1] - 1 >= len(cs_[0][1]["args"]):
+                break
+            cur, ex = cs_[0][0], cs_[0][0].body.expr_of_op(cs_[0][1]["args"][leaf[1] - 1])
+            why += " <- " + expr_str(ex)
+        opt = [(g2, t2) for g2 in reach for b2, t2 in g2.body.calls() if t2["f"].get("key") == "mahf::configuration::Configuration::optimize_with"]
         good = good and len(opt) == 1
     ctx.check(good, "C08.R4", pe.key, "seed-is-run-number", "par_experiment does not seed each run's fresh state with Random::new(<run number of the work item>): %s" % why, detail=why[:200], loc=pe.loc())
     # a generator supplied by the user's setup hook is never replaced: no insertion of a Random is reachable after the hook ran
     hooks = 0
-    for g in F.with_closures(pe):
+    for g in reach:
         body = g.body
         user = [b for b, t in body.calls() if (t["f"].get("trait") or "").startswith("core::ops::function") or t["f"].get("key", "").startswith("core::ops::function::Fn")]
         ins = {b for b, t in body.calls() if t["f"].get("name") in ("insert", "insert_default", "entry") and (t["f"].get("gargs") or [""])[0] == "mahf::state::random::Random"}
@@ -276,8 +289,14 @@ def r5_child_generators(ctx):
     # K6: a child generator is (parent.constructor)(seed) with seed = exactly one next_u64() drawn from the parent
     from collmodel import coll_oracle, install, load
     fn = F.fn("<mahf::state::random::RandomIter as core::iter::traits::iterator::Iterator>::next")
-    ci = F.field_index(RND, "constructor")
-    ii = F.field_index(RND, "inner")
+    def field_of_type(pred, what):
+        """private fields are located by what they hold, not by what they are called"""
+        hits = [fd["i"] for fd in F.adt(RND)["variants"][0]["fields"] if pred(fd.get("ty") or "")]
+        if len(hits) != 1:
+            raise AnchorMissing("field of %s holding %s not found (candidates %s)" % (RND, what, hits))
+        return hits[0]
+    ci = field_of_type(lambda ty: ty.startswith("fn(u64)") and ty.endswith("random::Random"), "the constructor function `fn(u64) -> Random`")
+    ii = field_of_type(lambda ty: "dyn rand_core::RngCore" in ty, "the boxed generator")
     nf = len(F.adt(RND)["variants"][0]["fields"])
     vals = [Sym("other")] * nf
     vals[ci] = Sym("parent-constructor")
@@ -304,7 +323,7 @@ def r5_child_generators(ctx):
     why = str(outs)
     ctx.check(good, "C08.R5", fn.key, "child-from-parent-seed-and-constructor", "a child generator is not (parent.constructor)(parent.next_u64()) with exactly one draw from the parent: %s" % why, detail=why[:160], loc=fn.loc())
     # K6 with instantiated type parameters: what new / with_rng build, and what the stored constructor rebuilds
-    cfi = F.field_index(RND, "config")
+    cfi = field_of_type(lambda ty: ty == "mahf::state::random::RandomConfig", "the RandomConfig")
     seed_idx = F.field_index("mahf::state::random::RandomConfig", "seed")
 
     def oracle6(interp, env, f, args, t, bb, path):
